@@ -80,6 +80,8 @@ parseattr(struct attr *a, enum attrkind allowed, enum attrprefix prefix)
 	} else if (consume(TLPAREN)) {
 		/* skip arguments */
 		for (paren = 1; paren > 0; next()) {
+			if (tok.kind == TEOF)
+				error(&tok.loc, "EOF in attribute argument list");
 			switch (tok.kind) {
 			case TLPAREN: ++paren; break;
 			case TRPAREN: --paren; break;
